@@ -97,18 +97,23 @@ def waitAndReconnect : M Unit := do
   disconnect
   connect
 
-/-- `_handle_bootloader` -/
-def handleBootloader : M Unit := do
+/-- the checks of `_handle_bootloader` that precede the unlock; returns what the device reported:
+    (UI version, echo matched, PIN retries left) -/
+def blGuards : M ((Nat × Nat × Nat) × Bool × Nat) := do
   let v ← getVersion
   checkVersion v UI_VERSION
-  if !(← platEcho) then M.throw' .protoError else
+  let e ← platEcho
+  if !e then M.throw' .protoError else
   -- retries: any dongle error ⇒ interrupt
-  M.tryCatchIf
+  let r ← M.tryCatchIf
     (do let r ← platRetries
-        if r < MIN_AVAILABLE_RETRIES then M.throw' .protoInterrupt else pure ())
+        if r < MIN_AVAILABLE_RETRIES then M.throw' .protoInterrupt else pure r)
     Exc.isDongleBase (fun _ => M.throw' .protoInterrupt)
-  let p ← pinObj
-  if !(← platUnlock p.pin) then M.throw' .protoError else
+  pure (v, e, r)
+
+/-- what follows a successful unlock: the pending PIN change (after which the manager stops), or
+    leaving the bootloader -/
+def blAfterUnlock : M Unit := do
   let p ← pinObj
   if p.needsChange then do
     -- try: ... except Exception: abort ... finally: raise Interrupt
@@ -127,23 +132,43 @@ def handleBootloader : M Unit := do
     let _ ← M.attempt (exitMenu true)       -- `except Exception: pass`
     waitAndReconnect
 
-/-- `initialize_device` -/
-def initializeDevice : M Unit := do
+/-- `_handle_bootloader` -/
+def handleBootloader : M Unit := do
+  let _ ← blGuards
+  let p ← pinObj
+  if !(← platUnlock p.pin) then M.throw' .protoError else blAfterUnlock
+
+/-- `initialize_device` up to the mode dispatch; returns (onboarded, mode) as the device reported -/
+def initGuards : M (Bool × Nat) := do
   M.tryCatchIf connect Exc.isDongleBase (fun _ => M.throw' .protoError)
-  M.tryCatchIf
-    (do if !(← isOnboarded) then M.throw' .protoError else pure ())
+  let o ← M.tryCatchIf
+    (do let o ← isOnboarded
+        if !o then M.throw' .protoError else pure o)
     Exc.isDongleBase (fun _ => M.throw' .protoInterrupt)
   let mode ← getCurrentMode
-  let mode ←
-    if mode == Mode_BOOTLOADER.toNat then do
-      handleBootloader
-      getCurrentMode
-    else pure mode
+  pure (o, mode)
+
+/-- the checks after the mode dispatch; returns (mode, app version) as the device reported -/
+def signerChecks (mode : Nat) : M (Nat × (Nat × Nat × Nat)) := do
   if mode != Mode_SIGNER.toNat then M.throw' .protoInterrupt else
   let v ← getVersion
   checkVersion v APP_VERSION
   let _ ← getSignerParameters
+  pure (mode, v)
+
+/-- the tail of `initialize_device`, after the mode dispatch -/
+def afterDispatch (mode : Nat) : M Unit := do
+  let _ ← signerChecks mode
   pure ()
+
+/-- `initialize_device` -/
+def initializeDevice : M Unit := do
+  let om ← initGuards
+  if om.2 == Mode_BOOTLOADER.toNat then do
+    handleBootloader
+    let mode ← getCurrentMode
+    afterDispatch mode
+  else afterDispatch om.2
 
 /-- `TCPServer.run` up to `serve_forever`, with its exception map, as `ManagerRunner.run`
     sees it: "served" | "error" (TCPServerError) | "interrupted" | the escaping exception -/
